@@ -83,7 +83,11 @@ class BaseNode(Node):
             if isinstance(value, str) and self.keyword=='str' and not value.lstrip().startswith('['):
                 pass  # a scalar text is sliced as a Python string
             elif isinstance(value, str):
-                value = np.array(json.loads(value), dtype=self.dtype)
+                data = json.loads(value)
+                if self.keyword=='int' and np.size(data) and np.array(data).dtype.kind=='f':
+                    # a float literal is not an integer (int('2.5') is refused for scalars as well)
+                    raise Exception("Could not convert raw value to type:",self.code,value)
+                value = np.array(data, dtype=self.dtype)
             else:
                 value = np.array(value, dtype=self.dtype)
             if self.value_slice:
